@@ -4,14 +4,9 @@ from props import _pipeline
 from pyvc.checklib import Check
 from pyvc.engine import Engine
 
-META = {
-    "level": "other",
-    "technique": "runtime evaluation of the effect contracts of DESIGN 3.0 at the choke points of the real code (Rule.fix, Rule.analyze, vhdlFile.update, rule_list.fix) over a finite universe of inputs: a bounded stand-in, not a proof",
-    "text": "BOUNDED ONLY for this property at present: " + _pipeline.WHAT["C19"] + ". The quantifier over all inputs and all ~960 rule bodies is not discharged deductively; see DESIGN.md for which kernel functions of the mechanism are under contract.",
-    "note": "Universe: repository fixtures x 3 configurations + 2 input variants + generated micro designs. Known findings of the unchanged tree are listed in known_findings.json by (rule, file, configuration, variant).",
-}
+META = _pipeline.meta('C19',  "Rejected files: seeded malformed variants of corpus files through the real parser and CLI (located message, exit status 1, no traceback, no hang); the crash sites of the unchanged tree are listed as known findings.")
 
-DEDUCTIVE = ['vsg.vhdlFile.vhdlFile.vhdlFile.update', 'vsg.vhdlFile.vhdlFile.remove_beginning_of_file_tokens', 'vsg.rules.token_case.token_case._fix_violation', 'vsg.rules.whitespace_between_tokens.Rule._fix_violation', 'vsg.rules.token_indent.token_indent._fix_violation', 'vsg.rule.Rule._filter_out_fix_only_violations', 'vsg.vhdlFile.vhdlFile.split_on_carriage_return', 'vsg.vhdlFile.vhdlFile.vhdlFile.get_lines']
+DEDUCTIVE = ['vsg.apply_rules.apply_rules', 'vsg.vhdlFile.utils.detect_subelement_until', 'vsg.vhdlFile.utils.classify_subelement_until', 'vsg.vhdlFile.utils.object_value_is', 'vsg.vhdlFile.utils.find_next_token', 'vsg.vhdlFile.vhdlFile.vhdlFile.update', 'vsg.vhdlFile.vhdlFile.remove_beginning_of_file_tokens', 'vsg.rules.token_case.token_case._fix_violation', 'vsg.rules.whitespace_between_tokens.Rule._fix_violation', 'vsg.rules.token_indent.token_indent._fix_violation', 'vsg.rule.Rule._filter_out_fix_only_violations', 'vsg.vhdlFile.vhdlFile.split_on_carriage_return', 'vsg.vhdlFile.vhdlFile.vhdlFile.get_lines']
 
 
 def run():
@@ -19,4 +14,31 @@ def run():
     c.engine = Engine()
     c.deductive(sorted(q for q in c.engine.contracts if q.startswith("vsg.tokens.")) + DEDUCTIVE)
     _pipeline.pipeline_part(c, "C19")
+    # rejected files: located message, no other exception, no hang (malformed variants of accepted files)
+    import os
+    import zlib
+
+    from bounded import corpus, reject
+    from pyvc.checklib import Finding
+
+    files = corpus.corpus_files() if c.tier == "thorough" else corpus.sample(400, c.seed + 19)
+    ks = range(3) if c.tier == "thorough" else range(1)
+    jobs = [(f, zlib.crc32(os.path.relpath(f, corpus.REPO).encode()) * 8 + k) for f in files for k in ks]
+    res = corpus.pmap(reject.one, jobs, chunksize=8)
+    outcome = {}
+    for r in res:
+        outcome[r[3]] = outcome.get(r[3], 0) + 1
+    c.bounded["rejected_files"] = {"evaluations": len(res), "distinct_nontrivial": outcome.get("rejected", 0), "outcomes": outcome, "rule": "seeded malformed variants (stray keyword line, deleted line, deleted delimiter, truncation, duplicated line) of corpus files classified by the real parser under a %d s limit; non-trivial = the variant was rejected" % reject.LIMIT}
+    seen = set()
+    for path, seed, what, kind, why in res:
+        if why is None or (kind, why) in seen:
+            continue
+        seen.add((kind, why))
+        c.findings.append(Finding("bounded", "reject:" + kind, "%s [%s, %s]" % (why, os.path.relpath(path, corpus.REPO), what), {"file": path, "mutation_seed": seed, "mutation": what, "observed": why, "how_to_rerun": "cd /verif && /venv/bin/python -c 'from bounded import reject; print(reject.one((%r, %d)))'" % (path, seed)}, why))
+    cfiles = corpus.sample(12 if c.tier == "quick" else 80, c.seed + 119)
+    cres = corpus.pmap(reject.cli_case, [(f, c.seed * 100 + i) for i, f in enumerate(cfiles)], chunksize=1)
+    c.bounded["rejected_files_cli"] = {"evaluations": len(cres), "distinct_nontrivial": len(cres), "rule": "real CLI on [file with a stray keyword line, good file]: exit status 1, message with a line number, no traceback, terminates"}
+    for path, seed, kind, why in cres:
+        if why:
+            c.findings.append(Finding("bounded", ("reject:" if kind == "crash" else "reject_cli:") + kind, "%s [%s]" % (why, os.path.relpath(path, corpus.REPO)), {"file": path, "scenario_seed": seed, "observed": why}, why))
     return c.finish({"explanation": META["text"]})
